@@ -154,6 +154,11 @@ def purity(chk, lab, key, pss, site):
             widen = isinstance(old, BV) and isinstance(new, BV) and all(nb == ob or (isinstance(nb, tuple) and nb[0] == 'or' and ob in nb[1]) or (nb == 1 and i2 == 0)
                                                                        for i2, (ob, nb) in enumerate(zip(old.bits, new.bits)))
             if fresh:
+                # ... and only into a slot whose whole entry tested unused on this path: an entry that merely lacks PRESENT may still be a
+                # (temporarily non-present) huge-page leaf or table link, which a call must report, not overwrite
+                if not any((t.k == 'test' and t.table == s.table and t.idx.key() == s.idx.key() and t.what == 'unused' and t.res == 1) or
+                           (t.k == 'zero' and t.table == s.table) for t in ps.steps[:i]):      # ... or the slot lies in a table this call has just zeroed
+                    bad_parent.append('level-%d entry linked to a fresh table without the whole entry having tested unused' % s.level)
                 continue
             if widen:
                 if s.level in (3, 2) and known.get(7) != 0:
